@@ -280,6 +280,11 @@ Section Proofs.
     exfalso. apply H. reflexivity.
   Qed.
 
+  Lemma lang_for_file_exactly_one s f :
+    (forall d, snd (sstep s (LangForFile f)) = RLang d <-> langs_for_file fnm f (slangs s) = [d]) /\
+    (length (langs_for_file fnm f (slangs s)) <> 1 -> snd (sstep s (LangForFile f)) = RErr).
+  Proof. split; [intro d; apply lang_for_file_unique | apply lang_for_file_fails_otherwise]. Qed.
+
   (* 5. metamodel cache *)
   Lemma lookup_update_same {A} k (v : A) l : lookup k (update k v l) = Some v.
   Proof.
